@@ -23,7 +23,15 @@ for fun in nograd_functions:
 defjvp(func(ArrayBox.__getitem__), "same")
 defjvp(untake, "same")
 
-defjvp_argnum(anp.array_from_args, lambda argnum, g, ans, args, kwargs: untake(g, argnum - 2, vspace(ans)))
+defjvp_argnum(
+    anp.array_from_args,
+    lambda argnum, g, ans, args, kwargs: untake(
+        # with ndmin larger than the natural rank, np.array prepends axes of length one
+        g,
+        (0,) * (anp.ndim(ans) - 1 - anp.ndim(args[2])) + (argnum - 2,),
+        vspace(ans),
+    ),
+)
 defjvp(
     anp._array_from_scalar_or_array,
     None,
